@@ -91,6 +91,7 @@ structure Coup (max : Nat) (s : St) (o : Ob) (m : MS) (x : List CFrame) : Prop w
   subF : o.sub.map (·.frame) = s.submitted
   subM : ∀ y ∈ o.sub, y.want.matches y.wf = true
   exp : m.healthy = true → m.expect ++ pendW s o m.last = (o.sub.drop o.reported).map (·.want)
+  rep : m.healthy = true → o.reported ≤ o.sub.length
   inb : o.inboxC.map absFrame = s.inbox
   rdq : m.synced = true → s.ws ≠ .terminated →
     m.inq = o.held ++ o.cur.toList ++ x ++ o.inboxC ++ o.net ∧ m.macc = o.macc
@@ -105,7 +106,7 @@ structure Coup (max : Nat) (s : St) (o : Ob) (m : MS) (x : List CFrame) : Prop w
   rdCan : s.rd.isSome = true → s.ws.canRead = true
 
 theorem coup_init (max : Nat) : Coup max {} {} { max := max } [] := by
-  refine ⟨rfl, ?_, ?_, rfl, ?_, ?_, fun _ => rfl, Or.inl rfl, rfl, ?_, fun _ => rfl, rfl, fun _ _ => ⟨rfl, rfl⟩, ?_, rfl, ?_, rfl,
+  refine ⟨rfl, ?_, ?_, rfl, ?_, ?_, fun _ => rfl, Or.inl rfl, rfl, ?_, fun _ => rfl, (fun _ => Nat.le_refl _), rfl, fun _ _ => ⟨rfl, rfl⟩, ?_, rfl, ?_, rfl,
     ?_, ?_, fun _ => ⟨rfl, rfl⟩, ?_, ?_⟩
   · intro c hc; cases hc
   · intro cb hc; cases hc
@@ -207,7 +208,7 @@ theorem coup_fl {max : Nat} {s1 s2 : St} {o : Ob} {m : MS} {x : List CFrame} {ok
   have hcur : o.cur = none := cur_of_not_special h.win (fun t rest e => hns t (e ▸ List.mem_cons_self ..))
   have hp1 : pendW s1 o m.last = [] := pendW_of_not_special o _ (fun t rest e => hns t (e ▸ List.mem_cons_self ..))
   have hp2 : pendW s2 o m.last = [] := pendW_of_not_special o _ (fun t rest e => hns2 t (e ▸ List.mem_cons_self ..))
-  refine ⟨h.max, ?_, ?_, ?_, ?_, ?_, ?_, ?_, ?_, h.subM, ?_, ?_, ?_, h.heldOk, ?_, ?_, ?_, ?_, h.rdr3, h.rdr4, ?_, ?_⟩
+  refine ⟨h.max, ?_, ?_, ?_, ?_, ?_, ?_, ?_, ?_, h.subM, ?_, h.rep, ?_, ?_, h.heldOk, ?_, ?_, ?_, ?_, h.rdr3, h.rdr4, ?_, ?_⟩
   · rw [hstarted, hlog]; exact h.ledMem
   · rw [hstarted]; exact h.ledAll
   · rw [hst, List.filterMap_append, filterMap_quiet new hq, List.nil_append]; exact h.stk
